@@ -50,6 +50,43 @@ fn span_is_entry(src: &str, cm: &CodeMap, off: usize, k: &str, v: &Value) -> boo
     }
 }
 
+/// The same iterator consumed in the other standard ways (`skip`, `nth`, `step_by`, `last`,
+/// `count`, `fold`, `size_hint`) must yield the same elements as plain `next()` calls: an
+/// iterator that overrides one of these (or its size hint) and lets its running code-map
+/// offset go stale is caught here.  The adaptors are applied to the RAW iterator `mk()`
+/// (a `map` in between would hide an overridden `nth`); `sig` projects an item to its offsets.
+fn styles_agree<I: Iterator, T: PartialEq + Clone>(mk: &dyn Fn() -> I, sig: &dyn Fn(I::Item) -> T) -> bool {
+    let mut base: Vec<T> = vec![];
+    let mut it = mk();
+    while let Some(x) = it.next() {
+        base.push(sig(x));
+    }
+    let n = base.len();
+    let mut ok = mk().count() == n
+        && mk().last().map(|x| sig(x)) == base.last().cloned()
+        && mk().fold(0usize, |a, _| a + 1) == n;
+    let (lo, hi) = mk().size_hint();
+    ok &= lo <= n && hi.map_or(true, |h| h >= n);
+    ok &= mk().map(|x| sig(x)).collect::<Vec<T>>() == base;
+    for k in 1..=n.min(3) {
+        ok &= mk().skip(k).map(|x| sig(x)).collect::<Vec<T>>() == base[k..].to_vec();
+        let mut it = mk();
+        ok &= it.nth(k - 1).map(|x| sig(x)) == Some(base[k - 1].clone());
+        let mut rest: Vec<T> = vec![];
+        while let Some(x) = it.next() {
+            rest.push(sig(x));
+        }
+        ok &= rest == base[k..].to_vec();
+    }
+    if n >= 2 {
+        ok &= mk().step_by(2).map(|x| sig(x)).collect::<Vec<T>>() == base.iter().step_by(2).cloned().collect::<Vec<T>>();
+        ok &= mk().nth(n).is_none();
+        let mut it = mk();
+        ok &= it.nth(n - 1).map(|x| sig(x)) == Some(base[n - 1].clone()) && it.next().is_none();
+    }
+    ok
+}
+
 fn walk(src: &str, v: &Value, cm: &CodeMap, off: usize, out: &mut String, spans_ok: &mut bool) {
     match v {
         Value::Array(a) => {
@@ -57,6 +94,8 @@ fn walk(src: &str, v: &Value, cm: &CodeMap, off: usize, out: &mut String, spans_
             let items: Vec<Mapped<&Value>> = a.iter_mapped(cm, off).collect();
             // the slice impl must agree with the Vec impl
             let items2: Vec<usize> = a.as_slice().iter_mapped(cm, off).map(|m| m.offset).collect();
+            *spans_ok &= styles_agree(&|| a.iter_mapped(cm, off), &|m| m.offset)
+                && styles_agree(&|| a.as_slice().iter_mapped(cm, off), &|m| m.offset);
             for (i, m) in items.iter().enumerate() {
                 out.push_str(&format!("{}{}", if i > 0 { "," } else { "" }, m.offset));
                 *spans_ok &= span_is_value(src, cm, m.offset, m.value) && items2[i] == m.offset;
@@ -69,6 +108,7 @@ fn walk(src: &str, v: &Value, cm: &CodeMap, off: usize, out: &mut String, spans_
         Value::Object(o) => {
             out.push_str(&format!(" O{off}["));
             let ents: Vec<_> = o.iter_mapped(cm, off).collect();
+            *spans_ok &= styles_agree(&|| o.iter_mapped(cm, off), &|m| (m.offset, m.value.key.offset, m.value.value.offset));
             for (i, m) in ents.iter().enumerate() {
                 out.push_str(&format!(
                     "{}{}/{}/{}",
@@ -103,7 +143,12 @@ fn walk(src: &str, v: &Value, cm: &CodeMap, off: usize, out: &mut String, spans_
                     .collect();
                 let c: Vec<usize> = o.get_mapped(cm, off, k).map(|m| m.offset).collect();
                 let d: Vec<(usize, usize)> = o.get_mapped_with_index(cm, off, k).map(|(i, m)| (i, m.offset)).collect();
-                let proj_ok = a.iter().zip(&b).all(|(x, y)| x.split_once('@').unwrap().1 == y)
+                let styles = styles_agree(&|| o.get_mapped_entries_with_index(cm, off, k), &|(i, m)| {
+                    (i, m.offset, m.value.key.offset, m.value.value.offset)
+                }) && styles_agree(&|| o.get_mapped_entries(cm, off, k), &|m| m.offset)
+                    && styles_agree(&|| o.get_mapped(cm, off, k), &|m| m.offset)
+                    && styles_agree(&|| o.get_mapped_with_index(cm, off, k), &|(i, m)| (i, m.offset));
+                let proj_ok = styles && a.iter().zip(&b).all(|(x, y)| x.split_once('@').unwrap().1 == y)
                     && a.len() == b.len()
                     && c.len() == a.len()
                     && d.len() == a.len()
